@@ -83,7 +83,7 @@ def deliberate():
 def run(ck):
     thorough = ck.tier == "thorough"
     binp = ck.gobuild("sharda")
-    world = su.detect_world(ck, binp)
+    world = {k: v for k, v in su.detect_world(ck, binp).items() if k == "BugH11"}   # H10 / MetaStale: explicit two-world logic below
     if not ck.replay and not os.environ.get("VERIF_SKIP_MODEL"):   # (dev aid for mutation runs: the model check does not depend on the tree)
         ck.tlc_model("Shard", "Shard_C43t.cfg" if thorough else "Shard_C43.cfg", timeout=3000, files=su.cfg_files(world, "Shard_C43t.cfg" if thorough else "Shard_C43.cfg"))
         ck.setcov("exhaustive", True)
